@@ -481,8 +481,64 @@ def frame_type_of(case, act):
     return act.get('frame_type') or case.get('frame_type', 'single_frame')
 
 
+MS = 10 ** 6          # ns per ms
+TS = 1                # the trigger time stamp of the Rig's scripted clock
+
+
+def clock_of(case):
+    """the scripted clock of a case: what the successive `time_ns()` calls of the frame collector return, as offsets (ns)
+    from the trigger's time stamp; the last one repeats.  None = a clock that does not move."""
+    if case.get('clock'):
+        return list(case['clock']['reads'])
+    if case.get('time_exceeded'):
+        return [10 ** 12]
+    return None
+
+
+def max_ms_of(act):
+    return act['max_ms'] if act.get('max_ms') is not None else 100
+
+
+def selects(ft, i):
+    return ft == 'all_frame' or (ft != 'no_frame' and i == 0)
+
+
+def time_plan(case, due, nframes):
+    """the time budget as the check reads it (integers only): the clock is looked at on reaching a frame the frame type
+    selects; a frame reached more than max_ms milliseconds after the trigger's time stamp carries no variables, nor does
+    any later one (the clock is not looked at again); actions are processed in order, each with its own budget, all
+    against the same clock.  Returns ({action: [carries variables, per frame]}, number of looks at the clock)."""
+    script = clock_of(case) or [0]
+    k = 0
+    plan = {}
+    for ai, a in enumerate(case['actions']):
+        if not due[ai]:
+            continue
+        ft = frame_type_of(case, a)
+        spent = False
+        row = []
+        for i in range(nframes):
+            if not selects(ft, i):
+                row.append(False)
+                continue
+            if not spent:
+                off = script[min(k, len(script) - 1)]
+                k += 1
+                spent = off > max_ms_of(a) * MS
+            row.append(not spent)
+        plan[ai] = row
+    return plan, k
+
+
+def plan_of(case, obs, live):
+    due = obs.get('due', [True] * len(case['actions']))
+    return time_plan(case, due, max(len(live['frames_locals']), 1) if live else 1)
+
+
 def action_config(act, case):
     cfg = {}
+    if act.get('max_ms') is not None:
+        cfg['MAX_TP_PROCESS_TIME'] = act['max_ms']
     for k, key in CFG_KEYS.items():
         if act['limits'].get(k) is not None:
             cfg[key] = act['limits'][k]
@@ -647,9 +703,15 @@ def _drive(case, objs, act_ids):
     from deep.api.tracepoint.trigger import LocationAction, Trigger, LineLocation, Location
     rig = Rig()
     orig_time = fcm.time_ns
-    exceeded = bool(case.get('time_exceeded'))
-    fcm.time_ns = (lambda: rig.clock + (10 ** 12 if exceeded else 0))
-    out = {'obs': {}}
+    script = clock_of(case) or [0]
+    looks = []
+
+    def scripted_time_ns():
+        off = script[min(len(looks), len(script) - 1)]
+        looks.append(off)
+        return rig.clock + off
+    fcm.time_ns = scripted_time_ns
+    out = {'obs': {}, 'looks': looks}
     try:
         src, line = host_source(case)
         glb = {'__name__': 'c05host'}
@@ -701,6 +763,8 @@ def _drive(case, objs, act_ids):
             out['shim'] = shim
         if 'exc' in res and not case.get('capture') == 'exception':
             obs['host_exc'] = f'{type(res["exc"]).__name__}: {res["exc"]}'
+        if rig.clock != TS:
+            raise core.Infra('the scripted trigger clock is not at TS')
         out.update(glb=glb, host_locals=host_locals, frames_locals=frames_locals, capture_val=capture_val,
                    pushed=list(rig.push.pushed))
         return out
@@ -714,6 +778,7 @@ def run_case(case):
     objs = build(case['objs'])
     d = _drive(case, objs, list(range(len(case['actions']))))
     obs = d['obs']
+    obs['clock_looks'] = len(d['looks'])
     glb, host_locals, frames_locals = d['glb'], d['host_locals'], d['frames_locals']
     global _LIVE
     if has_outside(case) or has_unmodelled(case):
@@ -944,13 +1009,21 @@ def model_request(case, obs):
             continue
         lim = limits_of(a['limits'])
         ft = frame_type_of(case, a)
-        frames = []
-        for i in range(len(obs['frames_locals'])):
-            coll = (ft == 'all_frame' or (ft != 'no_frame' and i == 0)) and not case.get('time_exceeded')
-            frames.append({'locals': obs['frames_locals'][i], 'collect': bool(coll)})
+        # which of the selected frames are collected is decided by the MODEL (CollectorTime, regenerated from the source)
+        # from the same scripted clock the real collector read
+        frames = [{'locals': obs['frames_locals'][i], 'selected': bool(selects(ft, i))}
+                  for i in range(len(obs['frames_locals']))]
         watches = [{'src': k, 'expr': e, 'value': v} for k, e, v in obs['watch_roots'][ai]]
-        acts.append({'limits': lim, 'frames': frames, 'watches': watches})
-    return {'op': 'collect', 'heap': [fix_heap(o) for o in obs['heap']], 'actions': acts}
+        acts.append({'limits': lim, 'frames': frames, 'watches': watches, 'max_ms': max_ms_of(a)})
+    script = clock_of(case) or [0]
+    return {'op': 'collect', 'heap': [fix_heap(o) for o in obs['heap']], 'actions': acts,
+            'clock': {'ts': TS, 'reads': [TS + x for x in script]}}
+
+
+def counts_looks(case):
+    """is the number of clock reads of the real collector comparable with the model's: the model must know the whole stack
+    (a MockFrame chain) or the frame type must select nothing below the paused frame"""
+    return bool(case.get('mock')) or all(frame_type_of(case, a) != 'all_frame' for a in case['actions'])
 
 
 def fix_heap(o):
@@ -988,6 +1061,10 @@ def compare(case, obs, resp):
     if len(snaps) != len(obs.get('snapshots', [])):
         out.append('more than one snapshot for one tracepoint id')
     due_ids = [i for i in range(len(case['actions'])) if obs.get('due', [True] * len(case['actions']))[i]]
+    if 'reads' in resp and 'clock_looks' in obs and counts_looks(case) and not any('failed' in m for m in resp['actions']) \
+            and resp['reads'] != obs['clock_looks']:
+        out.append(f'the frame collector read the clock {obs["clock_looks"]} times, the model {resp["reads"]} times '
+                   f'(frames collected per action, model: {resp.get("collected")})')
     for i, m in zip(due_ids, resp['actions']):
         s = snaps.get('tp%d' % i)
         if 'failed' in m:
@@ -1403,6 +1480,38 @@ def gen_case(rng, lim=None, nobj=None, hostile=0.0, outside=False, nactions=1, s
     return case
 
 
+def gen_clock(rng, nobj=None):
+    """the time-budget stream: a MockFrame chain of 1-5 frames, frame type mostly all_frame, 1-2 actions with budgets from
+    {default, 0, 1, 50, 100, 250} ms, and a clock script of readings around the boundary (budget -1 ns / exactly / +1 ns / +1 ms,
+    far beyond, before the time stamp, huge), monotone half of the time — otherwise in any order (a clock that goes back)."""
+    nfr = rng.choice([1, 2, 3, 3, 4, 5])
+    ft = rng.choice(['all_frame'] * 6 + ['single_frame', 'no_frame'])
+    c = gen_case(rng, nobj=nobj or rng.choice([6, 10, 16, 25]), mock_frames=nfr, frame_type=ft, stream='clock',
+                 nactions=rng.choice([1, 1, 1, 2]))
+    for a in c['actions']:
+        a['max_ms'] = rng.choice([None, None, 0, 1, 50, 100, 250])
+    n = rng.randint(1, nfr * len(c['actions']) + 1)
+    reads = []
+    for _ in range(n):
+        b = max_ms_of(rng.choice(c['actions'])) * MS
+        reads.append(rng.choice([0, 1, b - 1, b, b, b + 1, b + 1, b + MS, 10 ** 12, -5, b // 2, 2 ** 45]))
+    if rng.random() < 0.5:
+        reads.sort()
+    if rng.random() < 0.3:
+        reads = [min(x, max_ms_of(c['actions'][0]) * MS) for x in reads[:-1]] + [reads[-1]]      # spent late, or never
+    c['clock'] = {'reads': reads}
+    return c
+
+
+def clock_label(case, obs):
+    """how the time budget cut the stack of the first action: all selected frames collected / some / none"""
+    plan, looks = time_plan(case, obs.get('due', [True] * len(case['actions'])), len(case.get('mock') or [0]))
+    sel = [selects(frame_type_of(case, case['actions'][0]), i) for i in range(len(case.get('mock') or [0]))]
+    row = plan.get(0, [])
+    nsel, ncol = sum(sel), sum(row)
+    return 'none-selected' if nsel == 0 else 'all' if ncol == nsel else 'none' if ncol == 0 else 'cut'
+
+
 # ------------------------------------------------------------------------------------- oracles (the statements)
 def expands_unknown(o):
     """an object of a kind the reference does not enumerate children for, but which may have some"""
@@ -1438,7 +1547,7 @@ def judge_bounds(case, obs, live, ai, s):
     ref = Ref(lim)
     keep = live['keep']
     table = {int(e['vid']): e for e in s['vars']}
-    collected = frame_type_of(case, case['actions'][ai]) != 'no_frame' and not case.get('time_exceeded')
+    collected = plan_of(case, obs, live)[0].get(ai, [False])[0]
     vids = snap_vids(s)
     n_alloc = max(vids | ({1} if collected and (s['frames'] and (s['frames'][0] or lim['vars'] >= 0)) else set()),
                   default=0)
@@ -1621,6 +1730,42 @@ def judge_identity(case, obs, live, ai, s):
     return v
 
 
+def judge_frames(case, obs, live, i, s):
+    """which frames of action i's snapshot carry variables: decided by the tracepoint's OWN frame type and by the time budget
+    (`time_plan`); every frame of the stack is listed; a frame that carries variables carries its locals, all of them unless
+    the variable budget ran out."""
+    v = []
+    a = case['actions'][i]
+    lim = limits_of(a['limits'])
+    ft = frame_type_of(case, a)
+    n_alloc = max(snap_vids(s) | {1}, default=1)
+    plan = plan_of(case, obs, live)[0].get(i, [])
+    if case.get('mock') and len(s['frames']) != len(live['frames_locals']):
+        v.append(f'tp{i}: {len(s["frames"])} frames in the snapshot, the stack has {len(live["frames_locals"])}')
+    for fi in range(min(len(live['frames_locals']), len(s['frames']))):
+        want = plan[fi] if fi < len(plan) else False
+        got_names = [r[1] for r in s['frames'][fi]]
+        if not want:
+            if got_names and selects(ft, fi):
+                v.append(f'tp{i}: frame {fi} carries variables {got_names[:5]} although it was reached after the time '
+                         f'budget of {max_ms_of(a)} ms was spent (clock script {clock_of(case)})')
+            elif got_names:
+                v.append(f'tp{i}: frame {fi} carries variables {got_names[:5]} although frame_type is {ft}')
+            continue
+        if lim['depth'] < 2:
+            continue
+        names = list(live['frames_locals'][fi].keys())
+        if got_names != names[:len(got_names)]:
+            v.append(f'tp{i}: variables of frame {fi} {got_names[:8]} are not its locals {names[:8]}')
+        elif (fi == 0 or case.get('clock')) and len(got_names) < len(names) \
+                and n_alloc + sum(plan[1:fi + 1]) < lim['vars'] + 1:
+            # a frame reached within the time budget is collected WHOLE (the clock does not cut a frame half-way); the
+            # locals dict of every collected frame used up one id that is not visible in the snapshot
+            v.append(f'tp{i}: local {names[len(got_names)]!r} of frame {fi} is missing ({len(got_names)} of '
+                     f'{len(names)} locals, {n_alloc} of {lim["vars"] + 1} variable ids used, frame_type {ft})')
+    return v
+
+
 def judge_total(case, obs, live):
     """C06: a snapshot per due tracepoint, variables intact (offenders as placeholders), snapshots independent."""
     v = []
@@ -1650,21 +1795,7 @@ def judge_total(case, obs, live):
         ft = frame_type_of(case, a)
         n_alloc = max(snap_vids(s) | {1}, default=1)
         # which frames carry variables is decided by the tracepoint's OWN frame_type
-        for fi in range(min(len(live['frames_locals']), len(s['frames']))):
-            want = (ft == 'all_frame' or (ft != 'no_frame' and fi == 0)) and not case.get('time_exceeded')
-            got_names = [r[1] for r in s['frames'][fi]]
-            if not want:
-                if got_names:
-                    v.append(f'tp{i}: frame {fi} carries variables {got_names[:5]} although frame_type is {ft}')
-                continue
-            if lim['depth'] < 2:
-                continue
-            names = list(live['frames_locals'][fi].keys())
-            if got_names != names[:len(got_names)]:
-                v.append(f'tp{i}: variables of frame {fi} {got_names[:8]} are not its locals {names[:8]}')
-            elif fi == 0 and len(got_names) < len(names) and n_alloc < lim['vars'] + 1:
-                v.append(f'tp{i}: local {names[len(got_names)]!r} of frame {fi} is missing ({len(got_names)} of '
-                         f'{len(names)} locals, {n_alloc} of {lim["vars"] + 1} variable ids used, frame_type {ft})')
+        v += judge_frames(case, obs, live, i, s)
         for vid, e in table.items():
             o = keep[e['obj']] if e['obj'] is not None else None
             if o is None:
